@@ -117,7 +117,7 @@ public:
     return result;
   }
   
-  static uint32 fromString(const String& str) {return fromString(str, str.length());}
+  static uint32 fromString(const String& str) {return fromString(str.data->str, str.data->len);} // not through operator const char*(): it reads the byte behind an attached string
 
   static bool isValid(const char* ch, usize len)
   {
@@ -151,5 +151,5 @@ public:
     return true;
   }
   
-  static bool isValid(const String& str) {return isValid(str, str.length());}
+  static bool isValid(const String& str) {return isValid(str.data->str, str.data->len);}
 };
